@@ -661,7 +661,8 @@ class EltoritoBootCatalog:
             self.state = self.EXPECTING_SECTION_HEADER_OR_DONE
         else:
             val = bytes(bytearray([valstr[0]]))
-            if val == b'\x00':
+            expecting_section_entry = bool(self.sections) and len(self.sections[-1].section_entries) < self.sections[-1].num_section_entries
+            if val == b'\x00' and not expecting_section_entry:
                 # An empty entry tells us we are done parsing El Torito.  Do
                 # some sanity checks.
                 last_section_index = len(self.sections) - 1
